@@ -43,7 +43,7 @@ func VerifH07a() {
 	var input []byte
 	sync := vMsgBytes('S', nil)
 	for i := 0; i < K; i++ {
-		kinds[i] = vChoose(8)
+		kinds[i] = vChoose(vParam("KINDS", 8)) // 8: with the simple-query kind; 7: without
 		n1[i] = vSymName()
 		switch kinds[i] {
 		case 0: // Parse n1
@@ -283,7 +283,7 @@ func VerifH07c() {
 // both behaviours are accepted.)
 // ---------------------------------------------------------------------------
 func VerifH07e() {
-	s1, p1, n, s2, p2, p3 := vSymName(), vSymName(), vSymName(), vSymName(), vSymName(), vSymName()
+	s1, p1, n, s4, s2, p2, p3 := vSymName(), vSymName(), vSymName(), vSymName(), vSymName(), vSymName(), vSymName()
 	closeStmt := nondetBool()
 	sync := vMsgBytes('S', nil)
 	kind := byte('P')
@@ -294,6 +294,8 @@ func VerifH07e() {
 		vMsgBytes('P', vCat(vCStr(s1), vCStr([]byte("q")), vU16(0))), sync,
 		vMsgBytes('B', vCat(vCStr(p1), vCStr(s1), vU16(0), vU16(0), vU16(0))), sync,
 		vMsgBytes('C', vCat([]byte{kind}, vCStr(n))), sync,
+		// another statement is parsed after the Close (it may reuse any name)
+		vMsgBytes('P', vCat(vCStr(s4), vCStr([]byte("r")), vU16(0))), sync,
 		vMsgBytes('D', vCat([]byte{'S'}, vCStr(s2))), sync,
 		vMsgBytes('D', vCat([]byte{'P'}, vCStr(p2))), sync,
 		vMsgBytes('E', vCat(vCStr(p3), vU32(0))), sync,
@@ -312,13 +314,18 @@ func VerifH07e() {
 	st := w.lastParse[0]
 	vAssert("bind", step2() == "2")
 	vAssert("close-complete", step2() == "3")
-	stmtAlive := !(closeStmt && vEqBytes(n, s1))
+	vAssert("second-parse", step2() == "1")
+	st2 := w.lastParse[0]
+	firstAlive := !(closeStmt && vEqBytes(n, s1)) && !vEqBytes(s4, s1) // s1 still names the first statement
 	portalAlive := !(!closeStmt && vEqBytes(n, p1))
 	portalUnspecified := closeStmt && vEqBytes(n, s1) // its statement was closed
 	got := step2()
-	if vEqBytes(s2, s1) && stmtAlive {
+	switch {
+	case vEqBytes(s2, s4):
+		vAssert("latest-statement-described", got == "t"+vDescOf(st2))
+	case vEqBytes(s2, s1) && firstAlive:
 		vAssert("statement-still-described", got == "t"+vDescOf(st))
-	} else {
+	default:
 		vAssert("unknown-or-closed-statement-is-error", got == "E")
 	}
 	got = step2()
@@ -331,14 +338,21 @@ func VerifH07e() {
 	}
 	before := len(w.events)
 	got = step2()
-	ran := false
+	ran, ranOther := false, false
 	for _, e := range w.events[before:] {
-		if e.kind == 'x' && w.stmts[e.id] == st {
-			ran = true
+		if e.kind == 'x' {
+			if w.stmts[e.id] == st {
+				ran = true
+			} else {
+				ranOther = true
+			}
 		}
 	}
+	// whatever happens to a portal, it never comes to run a statement it was not bound to
+	vAssert("a-portal-never-runs-another-statement", !ranOther)
 	if vEqBytes(p3, p1) && portalUnspecified {
 		vAssert("portal-of-closed-statement-runs-or-error", ran || got == "E")
+		vReach("portal-of-a-closed-statement-executed-after-another-parse")
 	} else if vEqBytes(p3, p1) && portalAlive {
 		vAssert("portal-still-executes-its-statement", ran)
 		if closeStmt && vEqBytes(n, p1) {
